@@ -424,7 +424,14 @@ class SweepCtx(LogCtx):
         for o in hist:
             probe.step(o)
         for call_no, tail_len in sites:
-            for keep in range(0, tail_len + 1):
+            keeps = range(0, tail_len + 1)
+            if tail_len > 400:
+                # a very long record (NOTIFICATION with kilobytes of data): the first and last 200 offsets and
+                # about 200 evenly spaced ones in between instead of every single offset
+                keeps = sorted(set(list(range(0, 201)) + list(range(tail_len - 200, tail_len + 1))
+                                   + list(range(200, tail_len - 200, max(1, (tail_len - 400) // 200)))))
+                self.stats["sweep_long_record_offsets_sampled"] += 1
+            for keep in keeps:
                 one(call_no, "power", keep, False)
             one(call_no, "power", 0, True)
         self.stats["sweep_fsync_sites"] += len(sites)
@@ -448,7 +455,7 @@ class LogProfile(BaseProfile):
             "rotations, up to 4 crashes armed at a file-system call drawn inside the following events (process kill, or power "
             "loss keeping 0..n characters of the un-synced tail, optionally losing a never-synced new file) and clean restarts, "
             "0-2 storage errors (one flush or fsync of the log fails with ENOSPC/EIO, a flush possibly after a partial write; the next attempt succeeds), 0-2 steps of the wall clock (-1 day .. +1 h; file names and 't' follow the wall clock, the reactor does not), audit after every restart and at the end; every (runs/sweeps)-th run is a SWEEP: for one history every "
-            "file-system call boundary x kill and every fsync x every byte offset of the un-synced tail; non-trivial = at "
+            "file-system call boundary x kill and every fsync x every byte offset of the un-synced tail (records longer than 400 octets: the first and last 200 offsets and ~200 evenly spaced ones); non-trivial = at "
             "least one record acknowledged; distinct = distinct (op, state, records) sequence")
     probes = ["io_error:flush/errno28", "io_error:fsync/errno28", "io_error:fsync/errno5", "clock_step:back", "clock_step:forward", "restarts", "crash:kill", "crash:power", "crash_in:write", "crash_in:fsync", "crash_in:flush", "crash_in:open",
               "torn_tail_candidates", "tolerated_crash_fragments", "rotations", "runs_with_rotation", "records_acked"]
